@@ -41,6 +41,11 @@ Lemma iter_fst {A B} (p : A * B -> A * B) (q : A -> A) :
   (forall s, fst (p s) = q (fst s)) -> forall k s, fst (Nat.iter k p s) = Nat.iter k q (fst s).
 Proof. intros Hp k s. induction k as [|k IH]; [reflexivity|].
   change (fst (p (Nat.iter k p s)) = q (Nat.iter k q (fst s))). rewrite Hp, IH. reflexivity. Qed.
+(* the same from an explicit pair: stated with variables, so that using it never makes the kernel compare
+   `fst (a, b)` with `a` for a big (generated) `a` *)
+Lemma iter_fst_pair {A B} (p : A * B -> A * B) (q : A -> A) :
+  (forall s, fst (p s) = q (fst s)) -> forall k a b, fst (Nat.iter k p (a, b)) = Nat.iter k q a.
+Proof. intros Hp k a b. exact (iter_fst p q Hp k (a, b)). Qed.
 
 Lemma iter_ext {A} (f g : A -> A) : (forall x, f x = g x) -> forall k a, Nat.iter k f a = Nat.iter k g a.
 Proof. intros E k a. induction k as [|k IH]; [reflexivity|].
@@ -105,25 +110,71 @@ Ltac keeps_leaf unf :=
   unf; unfold keeps in *; cbn [shp Shp_arr Shp_pair fst snd] in *;
   repeat match goal with X : (_ * _)%type |- _ => destruct X end; cbn [fst snd] in *;
   repeat match goal with H : _ /\ _ |- _ => destruct H end;
-  repeat split; rewrite ?sig_set in *; congruence.
+  repeat split;
+  repeat match goal with H : context [sig (set _ _ _)] |- _ => rewrite !sig_set in H end;
+  rewrite ?sig_set; congruence.
 
-(* Goal  Q (let x := v in F x).  Loops and conditional updates are cut out (one invariant each: the state keeps its
-   shapes w.r.t. the loop's initial state / the else-branch), other bindings are substituted.  `unf` unfolds Q. *)
+(* ---------- generated let-chains in combinator form ---------- *)
+(* The kernel compares two terms that contain `let`s by expanding every `let` (no sharing): a proof step that changes
+   a let-chain even slightly (one beta-redex) costs a comparison of the fully expanded terms, and that size grows
+   geometrically with every re-use of a bound variable in the generated code.  So a generated term is translated ONCE
+   into a chain of `Let_In v (fun x => ...)` (one conversion, checked once at the Qed of the bridging lemma), and the
+   walks below work on that form only: every step is the application of a lemma whose statement matches the goal
+   syntactically, a bound scalar becomes a universally quantified variable and is never copied. *)
+Definition Let_In {A B} (v : A) (f : A -> B) : B := f v.
+
+(* the translation: lets at statement level, under conditionals, in loop bodies and under binders *)
+Ltac lf t :=
+  lazymatch t with
+  | (let x := ?v in @?F x) => let v' := lf v in let F' := lf F in constr:(Let_In v' F')
+  | (fun x : ?A => @?F x) =>
+      constr:(fun x : A => ltac:(let b := eval cbv beta in (F x) in let b' := lf b in exact b'))
+  | (if ?c then ?a else ?b) => let a' := lf a in let b' := lf b in constr:(if c then a' else b')
+  | for_list ?l ?b ?s => let b' := lf b in constr:(for_list l b' s)
+  | _ => t
+  end.
+(* the value bound by the first `let` under the leading binders *)
+Ltac lf_first t :=
+  lazymatch t with
+  | (fun x : ?A => @?F x) =>
+      constr:(fun x : A => ltac:(let b := eval cbv beta in (F x) in let b' := lf_first b in exact b'))
+  | (let x := ?v in _) => lf v
+  end.
+
+Lemma LI_subst {A B} (Q : B -> Prop) (v : A) (F : A -> B) : Q (F v) -> Q (Let_In v F).
+Proof. exact (fun h => h). Qed.
+Lemma LI_all {A B} (Q : B -> Prop) (v : A) (F : A -> B) : (forall x, Q (F x)) -> Q (Let_In v F).
+Proof. exact (fun h => h v). Qed.
+Lemma LI_inv {A B} (Q : B -> Prop) (P : A -> Prop) (v : A) (F : A -> B) :
+  P v -> (forall x, P x -> Q (F x)) -> Q (Let_In v F).
+Proof. exact (fun hv h => h v hv). Qed.
+
+(* does a type hold an array? *)
+Ltac has_arr ty :=
+  lazymatch ty with
+  | arr _ => idtac
+  | (?a * ?b)%type => first [ has_arr a | has_arr b ]
+  end.
+
+(* Goal  Q (Let_In v F).  Loops and conditional updates are cut out (one invariant each: the state keeps its shapes
+   w.r.t. the loop's initial state / the else-branch), other array bindings are substituted (their values are small:
+   every scalar in them is a variable), bindings that hold no array become variables.  `unf` unfolds Q. *)
 Ltac uwalk unf :=
-  cbv beta;
   lazymatch goal with
-  | |- ?Q (let x := for_list ?l ?b ?s in @?F x) =>
-      let H := fresh "H" in let X := fresh "X" in
-      assert (H : keeps s (for_list l b s));
-      [ apply for_list_keeps; intros ? ? _; uwalk ltac:(idtac)
-      | revert H; generalize (for_list l b s); intros X H; change (Q (F X)); uwalk unf ]
-  | |- ?Q (let x := (if ?c then ?a else ?b) in @?F x) =>
-      let H := fresh "H" in let X := fresh "X" in
-      assert (H : keeps b (if c then a else b));
-      [ destruct c; [ uwalk ltac:(idtac) | apply keeps_refl ]
-      | revert H; generalize (if c then a else b); intros X H; change (Q (F X)); uwalk unf ]
-  | |- ?Q (let x := ?v in @?F x) =>
-      let G := eval cbv beta in (F v) in change (Q G); uwalk unf
+  | |- ?Q (@Let_In ?A _ ?v ?F) =>
+      tryif has_arr A then
+        lazymatch v with
+        | for_list ?l ?b ?s =>
+            refine (LI_inv Q (keeps s) v F _ _);
+            [ apply for_list_keeps; intros ? ? _; cbv beta; uwalk ltac:(idtac)
+            | intros ? ?; cbv beta; uwalk unf ]
+        | (if ?c then ?a else ?b) =>
+            refine (LI_inv Q (keeps b) v F _ _);
+            [ destruct c; [ uwalk ltac:(idtac) | apply keeps_refl ]
+            | intros ? ?; cbv beta; uwalk unf ]
+        | _ => refine (LI_subst Q v F _); cbv beta; uwalk unf
+        end
+      else (refine (LI_all Q v F _); intros ?; cbv beta; uwalk unf)
   | |- _ => keeps_leaf unf
   end.
 
@@ -146,22 +197,41 @@ Ltac bprep :=
   cbn beta iota delta [fst snd].
 Ltac bleaf unf := unf; cbv beta delta [rel Rel_arrZ Rel_pair Rel_eq]; cbn [fst snd]; repeat split; reflexivity.
 
+Lemma LI2_subst {A B} (Q : B -> B -> Prop) (v v' : A) (F F' : A -> B) :
+  Q (F v) (F' v') -> Q (Let_In v F) (Let_In v' F').
+Proof. exact (fun h => h). Qed.
+Lemma LI2_same {A B} (Q : B -> B -> Prop) (v : A) (F F' : A -> B) :
+  (forall x, Q (F x) (F' x)) -> Q (Let_In v F) (Let_In v F').
+Proof. exact (fun h => h v). Qed.
+Lemma LI2_free {A B} (Q : B -> B -> Prop) (v v' : A) (F F' : A -> B) :
+  (forall x x', Q (F x) (F' x')) -> Q (Let_In v F) (Let_In v' F').
+Proof. exact (fun h => h v v'). Qed.
+Lemma LI2_rel {A B} (Q : B -> B -> Prop) (P : A -> A -> Prop) (v v' : A) (F F' : A -> B) :
+  P v v' -> (forall x x', P x x' -> Q (F x) (F' x')) -> Q (Let_In v F) (Let_In v' F').
+Proof. exact (fun hv h => h v v' hv). Qed.
+
+(* Goal  Q (Let_In v F) (Let_In v' F').  Loops and conditional updates are cut out (related results), a binding
+   without arrays whose value is the same term in both runs becomes one shared variable, anything else is
+   substituted. *)
 Ltac bwalk unf :=
   cbn beta iota delta [fst snd];
   lazymatch goal with
-  | |- ?Q (let x := for_list ?l ?b ?s in @?F x) (let x' := for_list ?l ?b' ?s' in @?F' x') =>
+  | |- ?Q (@Let_In ?A _ ?v ?F) (@Let_In ?A _ ?v' ?F') =>
       let H := fresh "H" in let X := fresh "X" in let X' := fresh "X" in
-      assert (H : rel (for_list l b s) (for_list l b' s'));
-      [ apply for_list_rel; [ bleaf ltac:(idtac) | intros ? ? ? _ ?; bprep; bwalk ltac:(idtac) ]
-      | revert H; generalize (for_list l b s), (for_list l b' s'); intros X X' H; bprep; bwalk unf ]
-  | |- ?Q (let x := (if ?c then ?a else ?b) in @?F x) (let x' := (if ?c' then ?a' else ?b') in @?F' x') =>
-      let H := fresh "H" in let X := fresh "X" in let X' := fresh "X" in
-      tryif (assert (H : rel (if c then a else b) (if c' then a' else b'))
-               by first [ bleaf ltac:(idtac) | constr_eq c c'; destruct c; bwalk ltac:(idtac) ])
-      then (revert H; generalize (if c then a else b), (if c' then a' else b'); intros X X' H; bprep; bwalk unf)
-      else (generalize (if c then a else b), (if c' then a' else b'); intros X X'; bwalk unf)
-  | |- ?Q (let x := ?v in @?F x) (let x' := ?v' in @?F' x') =>
-      let G := eval cbv beta in (F v) in let G' := eval cbv beta in (F' v') in change (Q G G'); bwalk unf
+      lazymatch constr:((v, v')) with
+      | (for_list ?l ?b ?s, for_list ?l ?b' ?s') =>
+          refine (LI2_rel Q rel v v' F F' _ _);
+          [ apply for_list_rel; [ bleaf ltac:(idtac) | intros ? ? ? _ ?; bprep; bwalk ltac:(idtac) ]
+          | intros X X' H; bprep; bwalk unf ]
+      | ((if ?c then ?a else ?b), (if ?c' then ?a' else ?b')) =>
+          tryif (assert (H : rel v v') by first [ bleaf ltac:(idtac) | constr_eq c c'; destruct c; bwalk ltac:(idtac) ])
+          then (refine (LI2_rel Q rel v v' F F' H _); clear H; intros X X' H; bprep; bwalk unf)
+          else (refine (LI2_free Q v v' F F' _); intros X X'; bwalk unf)
+      | _ =>
+          tryif has_arr A then (refine (LI2_subst Q v v' F F' _); bwalk unf)
+          else tryif constr_eq v v' then (refine (LI2_same Q v F F' _); intros X; bwalk unf)
+          else (refine (LI2_subst Q v v' F F' _); bwalk unf)
+      end
   | |- _ => bleaf unf
   end.
 
@@ -192,16 +262,28 @@ Proof.
   - rewrite !(dir_range_small _ nx Hs). reflexivity.
 Qed.
 
+(* fteik2d_p2 = let u := (if iflag =? 2 then ... else ...) in (fst (fst u), snd (fst u), snd u): the bound value, in
+   combinator form *)
+Definition p2core :=
+  ltac:(let t := eval cbv beta delta [fteik2d_p2] in (@fteik2d_p2) in let t' := lf_first t in exact t').
+
 Section P2.
 Context {T : Type} `{Num T}.
+
+(* the only place where the generated let-chain meets its combinator form (checked by the kernel at this Qed) *)
+Lemma fteik2d_p2_tt dx dz grad iflag nx nz slow (tt : arr T) G S vzero xsa xsi zsa zsi :
+  fst (fst (fteik2d_p2 dx dz grad iflag nx nz slow tt G S vzero xsa xsi zsa zsi)) =
+  fst (fst (p2core T _ dx dz grad iflag nx nz slow tt G S vzero xsa xsi zsa zsi)).
+Proof. exact_no_check (eq_refl (fst (fst (p2core T _ dx dz grad iflag nx nz slow tt G S vzero xsa xsi zsa zsi)))). Qed.
 
 Definition tt_keeps (t0 : arr T) (r : arr T * arr T * arr Z) : Prop := sig (fst (fst r)) = sig t0.
 Lemma fteik2d_p2_sig dx dz grad iflag nx nz slow (tt : arr T) G S vzero xsa xsi zsa zsi :
   tt_keeps tt (fteik2d_p2 dx dz grad iflag nx nz slow tt G S vzero xsa xsi zsa zsi).
 Proof.
-  cbv beta delta [fteik2d_p2].
-  lazymatch goal with |- tt_keeps ?t (let u := (if ?c then ?a else ?b) in _) =>
-    change (tt_keeps t (if c then a else b)); destruct c end.
+  unfold tt_keeps. rewrite fteik2d_p2_tt.
+  change (tt_keeps tt (p2core T _ dx dz grad iflag nx nz slow tt G S vzero xsa xsi zsa zsi)).
+  cbv beta delta [p2core].
+  lazymatch goal with |- tt_keeps _ (if ?c then _ else _) => destruct c end.
   - uwalk ltac:(unfold tt_keeps).
   - uwalk ltac:(unfold tt_keeps).
 Qed.
@@ -211,9 +293,11 @@ Lemma fteik2d_p2_tt_indep dx dz iflag nx nz slow (tt : arr T) vzero xsa xsi zsa 
   tt_same (fteik2d_p2 dx dz grad iflag nx nz slow tt G S vzero xsa xsi zsa zsi)
           (fteik2d_p2 dx dz grad' iflag nx nz slow tt G' S' vzero xsa xsi zsa zsi).
 Proof.
-  cbv beta delta [fteik2d_p2].
-  lazymatch goal with |- tt_same (let u := (if ?c then ?a else ?b) in _) (let u' := (if ?c then ?a' else ?b') in _) =>
-    change (tt_same (if c then a else b) (if c then a' else b')); destruct c end.
+  unfold tt_same. rewrite !fteik2d_p2_tt.
+  change (tt_same (p2core T _ dx dz grad iflag nx nz slow tt G S vzero xsa xsi zsa zsi)
+                  (p2core T _ dx dz grad' iflag nx nz slow tt G' S' vzero xsa xsi zsa zsi)).
+  cbv beta delta [p2core].
+  lazymatch goal with |- tt_same (if ?c then _ else _) (if ?c then _ else _) => destruct c end.
   - bwalk ltac:(unfold tt_same).
   - bwalk ltac:(unfold tt_same).
 Qed.
@@ -315,7 +399,7 @@ Lemma fteik2d_ok_inv nsweep grad tt G v :
   inside2d = true /\ tt = Nat.iter (Z.to_nat nsweep) (ptt grad) (i_tt grad) /\ v = i_vzero grad.
 Proof.
   destruct (fteik2d_char nsweep grad) as [G' E]. rewrite E. destruct inside2d; [|discriminate].
-  intros E'. injection E' as <- _ <-. rewrite (iter_fst _ _ (pass2d_fst grad)). auto.
+  intros E'. injection E' as <- _ <-. rewrite (iter_fst_pair _ _ (pass2d_fst grad)). auto.
 Qed.
 
 (* ---------- 5 ---------- *)
@@ -391,7 +475,7 @@ Theorem fteik2d_tt_indep_of_grad nsweep :
 Proof.
   destruct (fteik2d_char nsweep true) as [G1 E1]. destruct (fteik2d_char nsweep false) as [G2 E2].
   rewrite E1, E2. destruct inside2d; [|reflexivity]. split.
-  - rewrite !(iter_fst _ _ (pass2d_fst _)). cbn [fst]. rewrite i_tt_indep. apply iter_ext, ptt_indep.
+  - rewrite !(iter_fst_pair _ _ (pass2d_fst _)). rewrite i_tt_indep. apply iter_ext, ptt_indep.
   - destruct p1_indep as (_ & _ & _ & _ & E & _). exact E.
 Qed.
 
@@ -542,7 +626,7 @@ Theorem fteik2d_converges grad : exists K, forall k, (K <= k)%nat -> grid2d grad
 Proof.
   unfold grid2d.
   destruct (Z_lt_ge_dec (dim slow 0) 0) as [Hz|Hz]; [|destruct (Z_lt_ge_dec (dim slow 1) 0) as [Hx|Hx]].
-  1,2: exists O; intros k _; rewrite !(iter_fst _ _ (pass2d_fst slow dz dx zsrc xsrc grad)); cbn [fst];
+  1,2: exists O; intros k _; rewrite !(iter_fst_pair _ _ (pass2d_fst slow dz dx zsrc xsrc grad));
        induction k as [|k IH]; [reflexivity | rewrite iter_S, IH; apply ptt_small; lia].
   destruct (lowering_iter_converges (ptt slow dz dx zsrc xsrc grad) (okT NZ NX)) with (t0 := i_tt slow dz dx zsrc xsrc grad)
     as [K HK].
@@ -550,7 +634,7 @@ Proof.
     split; [exact Ho|]. split; [destruct Ho as [_ ->], Ha as [_ ->]; reflexivity|].
     apply (leT_Forall2 NZ NX); auto. lia.
   - apply fteik2d_init_okT; lia.
-  - exists K. intros k Hk. rewrite !(iter_fst _ _ (pass2d_fst slow dz dx zsrc xsrc grad)). cbn [fst]. apply HK, Hk.
+  - exists K. intros k Hk. rewrite !(iter_fst_pair _ _ (pass2d_fst slow dz dx zsrc xsrc grad)). apply HK, Hk.
 Qed.
 
 (* the same, on the results of fteik2d: from some sweep count on, the returned grid no longer changes *)
@@ -562,8 +646,8 @@ Proof.
   destruct (fteik2d_converges grad) as [K HK]. exists (Z.of_nat K). intros n m ttn Gn vn ttm Gm vm Hnm En Em.
   apply fteik2d_ok_inv in En as (_ & -> & _). apply fteik2d_ok_inv in Em as (_ & -> & _).
   pose proof (HK (Z.to_nat m) ltac:(lia)) as Hm. pose proof (HK (Z.to_nat n) ltac:(lia)) as Hn.
-  unfold grid2d in Hm, Hn. rewrite !(iter_fst _ _ (pass2d_fst slow dz dx zsrc xsrc grad)) in Hm, Hn.
-  cbn [fst] in Hm, Hn. congruence.
+  unfold grid2d in Hm, Hn. rewrite !(iter_fst_pair _ _ (pass2d_fst slow dz dx zsrc xsrc grad)) in Hm, Hn.
+  congruence.
 Qed.
 End F2d.
 End RankSum.
